@@ -1,7 +1,287 @@
 package main
 
-import "verif/harness/internal/hx"
+// Full-path lines of stream `update` (property C27):
+//
+//	update e2e <engine> <old S-expr> <new S-expr> <old source> <new source> <store tx> <checks>
+//	   =>  accepted n=<k> | accepted bad=<id>:<what>,... | rejected:<kinds> | notchecked:<kind> | setup:<stage>:<kind>
+//
+// Exec deploys <old source> as contract C of account 0x1 on a fresh ledger (real runtime, engine
+// interp|vm), runs <store tx> (stores values of the old version's types under /storage/...), runs the
+// checks against the old code, updates the contract through `contracts.update` with <new source>, and
+// runs the checks again against the new code.
+//
+// <checks> = check (" @@ " check)*      check = ID "::" MODE "::" PRE "::" POST
+//
+//	MODE s  (stable): the statements PRE are run before the update, POST after it (as the body of a script
+//	        whose first statement binds `a` to the authorised account 0x1); the update is bad for this
+//	        check when POST fails at run time or logs something else than PRE did;
+//	MODE p  (post only): POST must run and log nothing but `true`.
+//
+// A check whose PRE fails, or whose POST does not type-check under the new code, says nothing about stored
+// data (`setup:…`, or the check is dropped and counted in n= as `u`).
+//
+// `bad=` is the direct oracle of the property: the update was accepted, and afterwards a stored value
+// fails to load / lacks a field the new version declares / has a field of another type / an enum value
+// denotes another case / a value is no longer an instance of an interface it conformed to.
 
-func genUpdateE2E(c *hx.Ctx) {}
+import (
+	"errors"
+	"fmt"
+	"os"
+	"sort"
+	"strings"
 
-func execUpdateE2E(op []string) string { return "bad-op" }
+	"github.com/onflow/cadence/common"
+	"github.com/onflow/cadence/runtime"
+	"github.com/onflow/cadence/stdlib"
+
+	"verif/harness/internal/acct"
+	"verif/harness/internal/cdc"
+	"verif/harness/internal/hx"
+)
+
+// ---------------------------------------------------------------------------------------------
+// execution
+
+type eCheck struct {
+	ID, Mode, Pre, Post string
+}
+
+func eParseChecks(s string) []eCheck {
+	var out []eCheck
+	if s == "" || s == "-" {
+		return out
+	}
+	for _, part := range strings.Split(s, " @@ ") {
+		f := strings.Split(part, "::")
+		if len(f) != 4 {
+			return nil
+		}
+		out = append(out, eCheck{f[0], f[1], f[2], f[3]})
+	}
+	return out
+}
+
+const eScriptHead = "import C from 0x1\naccess(all) fun main() { let a = getAuthAccount<auth(Storage) &Account>(0x1)\n"
+
+func eScript(bodies ...string) string {
+	var b strings.Builder
+	b.WriteString(eScriptHead)
+	for _, body := range bodies {
+		b.WriteString(body)
+		b.WriteString("\n")
+	}
+	b.WriteString("}")
+	return b.String()
+}
+
+// result of running one check body: logs joined, or an error label
+type eRun struct {
+	logs string
+	err  string // "" | "static:<kind>" | "<class>:<kind>"
+}
+
+func eRunOne(env *acct.Env, body string, useVM bool) eRun {
+	out := env.Script(eScript(body), useVM)
+	if out.Class != "none" {
+		if eIsStatic(out) {
+			return eRun{err: "static:" + out.Kind}
+		}
+		return eRun{err: out.Class + ":" + out.Kind}
+	}
+	return eRun{logs: strings.Join(out.Logs, ";")}
+}
+
+func eIsStatic(out *cdc.Outcome) bool {
+	if out.Err == nil {
+		return false
+	}
+	var pce *runtime.ParsingCheckingError
+	return errors.As(out.Err, &pce)
+}
+
+func debugOut() *os.File { return os.Stderr }
+
+// all bodies in one script, separated by marker logs; falls back to one script per body when the
+// combined script fails
+func eRunAll(env *acct.Env, bodies []string, useVM bool) []eRun {
+	res := make([]eRun, len(bodies))
+	if len(bodies) == 0 {
+		return res
+	}
+	var parts []string
+	for i, b := range bodies {
+		parts = append(parts, fmt.Sprintf("log(\"#%d\")\nif true {\n%s\n}", i, b))
+	}
+	out := env.Script(eScript(parts...), useVM)
+	if out.Class == "none" {
+		cur := -1
+		var acc [][]string = make([][]string, len(bodies))
+		for _, l := range out.Logs {
+			if strings.HasPrefix(l, "\"#") {
+				var k int
+				if _, err := fmt.Sscanf(l, "\"#%d\"", &k); err == nil && k == cur+1 {
+					cur = k
+					continue
+				}
+			}
+			if cur >= 0 {
+				acc[cur] = append(acc[cur], l)
+			}
+		}
+		for i := range bodies {
+			res[i] = eRun{logs: strings.Join(acc[i], ";")}
+		}
+		return res
+	}
+	for i, b := range bodies {
+		res[i] = eRunOne(env, b, useVM)
+	}
+	return res
+}
+
+func execUpdateE2E(op []string) string {
+	if len(op) != 9 {
+		return "bad-op"
+	}
+	useVM := op[2] == "vm"
+	oldSrc, newSrc, storeTx := op[5], op[6], op[7]
+	checks := eParseChecks(op[8])
+	if checks == nil && op[8] != "-" {
+		return "bad-op"
+	}
+	if uSX(oldSrc, true) != op[3] || uSX(newSrc, false) != op[4] {
+		return "sx-mismatch"
+	}
+	env := acct.NewEnv()
+	env.Signers = []common.Address{common.MustBytesToAddress([]byte{1})}
+	dep := env.Tx(fmt.Sprintf(`transaction { prepare(a: auth(Contracts) &Account) { a.contracts.add(name: "C", code: "%x".decodeHex()) } }`, oldSrc), useVM)
+	if dep.Class != "none" {
+		return "setup:deploy:" + dep.Kind
+	}
+	if storeTx != "-" {
+		st := env.Tx(storeTx, useVM)
+		if st.Class != "none" {
+			if debugUpdate() {
+				fmt.Fprintln(debugOut(), "store failed:", st.Err)
+			}
+			return "setup:store:" + st.Kind
+		}
+	}
+	pres := make([]string, len(checks))
+	posts := make([]string, len(checks))
+	for i, c := range checks {
+		pres[i], posts[i] = c.Pre, c.Post
+		if c.Mode == "p" {
+			pres[i] = ""
+		}
+	}
+	pre := eRunAll(env, pres, useVM)
+	for i, c := range checks {
+		if pre[i].err != "" {
+			if debugUpdate() {
+				fmt.Fprintln(debugOut(), "pre failed:", c.ID, pre[i].err)
+			}
+			return "setup:pre-" + c.ID + ":" + pre[i].err
+		}
+	}
+	up := env.Tx(fmt.Sprintf(`transaction { prepare(a: auth(Contracts) &Account) { a.contracts.update(name: "C", code: "%x".decodeHex()) } }`, newSrc), useVM)
+	if up.Class != "none" {
+		var cue *stdlib.ContractUpdateError
+		if errors.As(up.Err, &cue) {
+			return "rejected:" + strings.TrimPrefix(uErrKinds(cue), "err:")
+		}
+		return "notchecked:" + up.Kind
+	}
+	post := eRunAll(env, posts, useVM)
+	var bad []string
+	unusable := 0
+	for i, c := range checks {
+		switch {
+		case strings.HasPrefix(post[i].err, "static:"):
+			unusable++
+		case post[i].err != "":
+			bad = append(bad, c.ID+":posterr:"+post[i].err)
+		case c.Mode == "s" && post[i].logs != pre[i].logs:
+			bad = append(bad, c.ID+":changed")
+		case c.Mode == "p":
+			for _, l := range strings.Split(post[i].logs, ";") {
+				if l != "true" {
+					bad = append(bad, c.ID+":false")
+					break
+				}
+			}
+		}
+	}
+	if len(bad) > 0 {
+		sort.Strings(bad)
+		if debugUpdate() {
+			for i, c := range checks {
+				fmt.Fprintf(debugOut(), "check %s pre[%s %s] post[%s %s]\n", c.ID, pre[i].logs, pre[i].err, post[i].logs, post[i].err)
+			}
+		}
+		return "accepted bad=" + strings.Join(bad, ",")
+	}
+	return fmt.Sprintf("accepted n=%d u=%d", len(checks)-unusable, unusable)
+}
+
+// ---------------------------------------------------------------------------------------------
+// generator
+
+type eScenario struct {
+	Old, New, Store string
+	Checks          []eCheck
+}
+
+func eStoreTx(stmts ...string) string {
+	return "import C from 0x1 transaction { prepare(a: auth(Storage) &Account) { " + strings.Join(stmts, "; ") + " } }"
+}
+
+func eOneLine(s string) string {
+	return strings.Join(strings.Fields(s), " ")
+}
+
+func (sc eScenario) emit(c *hx.Ctx, engine string) {
+	var cs []string
+	for _, k := range sc.Checks {
+		cs = append(cs, k.ID+"::"+k.Mode+"::"+eOneLine(k.Pre)+"::"+eOneLine(k.Post))
+	}
+	checks := "-"
+	if len(cs) > 0 {
+		checks = strings.Join(cs, " @@ ")
+	}
+	o, n := eOneLine(sc.Old), eOneLine(sc.New)
+	c.Emit("update", "e2e", engine, uSX(o, true), uSX(n, false), o, n, eOneLine(sc.Store), checks)
+}
+
+// hand-written histories: one per rule of the property, and the candidates of DESIGN/notes
+var eFixed = []eScenario{
+	{ // interface J drops its conformance to I; S: J sits in a stored [{C.I}]
+		Old: `access(all) contract C {
+			access(all) struct interface I { access(all) fun n0(): Int }
+			access(all) struct interface J: I { }
+			access(all) struct S: J { access(all) let x: Int; init(x: Int) { self.x = x } access(all) fun n0(): Int { return self.x } }
+		}`,
+		New: `access(all) contract C {
+			access(all) struct interface I { access(all) fun n0(): Int }
+			access(all) struct interface J { }
+			access(all) struct S: J { access(all) let x: Int; init(x: Int) { self.x = x } access(all) fun n0(): Int { return self.x } }
+		}`,
+		Store: eStoreTx(`let xs: [{C.I}] = [C.S(x: 5)]`, `a.storage.save(xs, to: /storage/v0)`),
+		Checks: []eCheck{
+			{"load", "s", `let xs = a.storage.copy<[{C.I}]>(from: /storage/v0)!; log(xs.length)`, `let xs = a.storage.copy<[{C.I}]>(from: /storage/v0)!; log(xs.length)`},
+			{"inst", "p", ``, `let xs = a.storage.copy<[{C.I}]>(from: /storage/v0)!; log(xs[0].isInstance(Type<{C.I}>()))`},
+			{"elem", "s", `let xs = a.storage.copy<[{C.I}]>(from: /storage/v0)!; let e: {C.I} = xs[0]; log(e.n0())`, `let xs = a.storage.copy<[{C.I}]>(from: /storage/v0)!; let e: {C.I} = xs[0]; log(e.n0())`},
+			{"borrow", "s", `let r = a.storage.borrow<&[{C.I}]>(from: /storage/v0)!; log(r[0].n0())`, `let r = a.storage.borrow<&[{C.I}]>(from: /storage/v0)!; log(r[0].n0())`},
+			{"cast", "s", `let v = a.storage.copy<AnyStruct>(from: /storage/v0)!; let xs = v as! [{C.I}]; log(xs.length)`, `let v = a.storage.copy<AnyStruct>(from: /storage/v0)!; let xs = v as! [{C.I}]; log(xs.length)`},
+			{"castelem", "s", `let v = a.storage.copy<[AnyStruct]>(from: /storage/v0)!; let e = v[0] as! {C.I}; log(e.n0())`, `let v = a.storage.copy<[AnyStruct]>(from: /storage/v0)!; let e = v[0] as! {C.I}; log(e.n0())`},
+		},
+	},
+}
+
+func genUpdateE2E(c *hx.Ctx) {
+	for _, sc := range eFixed {
+		sc.emit(c, "interp")
+		sc.emit(c, "vm")
+	}
+}
